@@ -61,6 +61,44 @@ def _script(J, path):
     return log
 
 
+SQL_SCRIPT = [
+    # (statement, params) - transaction-control statements the journaler might be changed to use
+    ("CREATE TABLE IF NOT EXISTS t(a INTEGER NOT NULL, b INTEGER NOT NULL, c TEXT, PRIMARY KEY (a, b))", ()),
+    ("INSERT INTO t VALUES(?, ?, ?)", (1, 1, "x")),
+    ("COMMIT?", ()),
+    ("SAVEPOINT sp", ()), ("INSERT INTO t VALUES(?, ?, ?)", (2, 1, "y")), ("RELEASE sp", ()), ("REOPEN", ()),
+    ("INSERT INTO t VALUES(?, ?, ?)", (1, 1, "dup")),
+    ("SAVEPOINT sp", ()), ("INSERT INTO t VALUES(?, ?, ?)", (3, 1, "z")), ("RELEASE sp", ()), ("REOPEN", ()),
+    ("SAVEPOINT sp", ()), ("INSERT INTO t VALUES(?, ?, ?)", (4, 1, "w")), ("ROLLBACK TO sp", ()), ("RELEASE sp", ()),
+    ("INSERT OR IGNORE INTO t VALUES(?, ?, ?)", (2, 1, "ign")), ("INSERT OR REPLACE INTO t VALUES(?, ?, ?)", (2, 1, "rep")),
+    ("COMMIT?", ()), ("UPDATE t SET c=? WHERE a = ?", ("u", 2)), ("ROLLBACK", ()), ("REOPEN", ()),
+    ("BEGIN", ()), ("DELETE FROM t WHERE a >= ?", (2,)), ("COMMIT", ()), ("REOPEN", ()),
+]
+
+
+def _sql_script(connect, path):
+    log = []
+    conn = connect(path)
+    cur = conn.cursor()
+    for sql, params in SQL_SCRIPT:
+        if sql == "REOPEN":
+            cur.close()
+            conn.close()
+            conn = connect(path)
+            cur = conn.cursor()
+        elif sql == "COMMIT?":
+            conn.commit()
+        else:
+            try:
+                cur.execute(sql, params)
+            except Exception as e:
+                log.append(("err", type(e).__name__.split(".")[-1]))
+        cur.execute("SELECT a, b, c FROM t ORDER BY a")
+        log.append((sql, [tuple(r) for r in cur], conn.in_transaction))
+    conn.close()
+    return log
+
+
 def run():
     """Returns a short status string; raises RuntimeError on a mismatch."""
     d = tempfile.mkdtemp(prefix="vfstub", dir=os.path.dirname(os.path.dirname(os.path.abspath(__file__))))
@@ -70,6 +108,8 @@ def run():
         real = _script(jmod.Journaler, os.path.join(d, "real.db"))
         jmod.sqlite3 = fakesql.FakeSqlite3()
         fake = _script(jmod.Journaler, "fake.db")
+        real += _sql_script(real_sqlite3.connect, os.path.join(d, "sql.db"))
+        fake += _sql_script(fakesql.FakeSqlite3().connect, "sql.db")
     finally:
         jmod.sqlite3 = saved
         shutil.rmtree(d, ignore_errors=True)
